@@ -78,7 +78,7 @@ def dict_token(tok, which):
     good = ('label', RegionMeta) if which == 'meta' else ('color', RegionVisual)
     other = RegionVisual({'color': 'v1'}) if which == 'meta' else RegionMeta({'label': 'v1'})
     return {'dict_ok': lambda: {good[0]: 'v1'}, 'obj_ok': lambda: good[1]({good[0]: 'v1'}), 'dict_empty': lambda: {},
-            'dict_badkey': lambda: {'foo': 1}, 'other_kind': lambda: other, 'str': lambda: 'abc', 'none': lambda: None}[tok]()
+            'dict_badkey': lambda: {'foo': 1}, 'dict_goodbad': lambda: {good[0]: 'v1', 'foo': 1}, 'other_kind': lambda: other, 'str': lambda: 'abc', 'none': lambda: None}[tok]()
 
 
 def fmap(f):
@@ -193,6 +193,15 @@ class World:
                     m.update(**{k: v})
                 elif how == 'setdefault':
                     m.setdefault(k, v)
+                elif how in ('update2', 'update2_kw', 'ior2'):
+                    from regions import RegionMeta
+                    two = {('label' if isinstance(m, RegionMeta) else 'color'): 'v2', k: v}
+                    if how == 'update2':
+                        m.update(two)
+                    elif how == 'update2_kw':
+                        m.update(**two)
+                    else:
+                        m |= two
                 elif how in ('update_same', 'update_other', 'ior_other'):
                     from regions import RegionMeta, RegionVisual
                     same = type(m)
